@@ -118,6 +118,10 @@ type helper struct {
 	// litOnly: the body has defer / recover / goto, so it cannot be spliced into a caller's statement list; it can still
 	// become the body of a function literal (go h(x), defer h(x), h passed as a value)
 	litOnly bool
+	// unlockDefer: the body is `x.Lock(); defer x.Unlock(); …` with no other defer and only plain values returned; for the
+	// expansion the deferred unlock is written out in front of every return and at the end (the two differ only while a
+	// panic unwinds, which no rule reasons about)
+	unlockDefer bool
 	// deferOnly: litOnly for no other reason than defer statements (no goto, no recover outside a literal)
 	deferOnly bool
 	// knownFn: a function of the known list whose body is one return expression (a named predicate such as doneLocked).
@@ -355,6 +359,9 @@ func (nz *normaliser) eligible(pk *packages.Package, file *ast.File, fd *ast.Fun
 		return nil
 	}
 	h := &helper{obj: obj, decl: fd, pk: pk, file: file, nres: sig.Results().Len(), litOnly: litOnly, deferOnly: litOnly && !other}
+	if h.deferOnly && lockThenDeferUnlock(fd.Body) {
+		h.litOnly, h.deferOnly, h.unlockDefer = false, false, true
+	}
 	if !litOnly && len(fd.Body.List) == 1 && h.nres == 1 {
 		if r, ok := fd.Body.List[0].(*ast.ReturnStmt); ok && len(r.Results) == 1 {
 			hasLit := false
@@ -951,14 +958,36 @@ func spliceBlocks(rep []ast.Stmt) []ast.Stmt {
 			out = append(out, st)
 			continue
 		}
+		// (names the normaliser made itself - …Zq<n> - are unique in the function, so declaring them one level further out
+		// collides with nothing)
 		declares := false
+		own := func(name string) bool { return strings.Contains(name, "Zq") || name == "_" }
 		for _, s := range b.List {
 			switch x := s.(type) {
-			case *ast.DeclStmt, *ast.LabeledStmt:
-				declares = true
+			case *ast.LabeledStmt:
+				if !own(x.Label.Name) {
+					declares = true
+				}
+			case *ast.DeclStmt:
+				gd, ok := x.Decl.(*ast.GenDecl)
+				if !ok || gd.Tok != token.VAR {
+					declares = true
+					break
+				}
+				for _, sp := range gd.Specs {
+					for _, nm := range sp.(*ast.ValueSpec).Names {
+						if !own(nm.Name) {
+							declares = true
+						}
+					}
+				}
 			case *ast.AssignStmt:
 				if x.Tok == token.DEFINE {
-					declares = true
+					for _, l := range x.Lhs {
+						if id, ok := l.(*ast.Ident); !ok || !own(id.Name) {
+							declares = true
+						}
+					}
 				}
 			}
 		}
@@ -1202,6 +1231,9 @@ func (nz *normaliser) hoist(st ast.Stmt) []ast.Stmt {
 		if ast.Unparen(*sl) == ast.Expr(target) {
 			if r, isRet := st.(*ast.ReturnStmt); isRet && len(r.Results) > 1 {
 				continue // `return nil, h(x)`: one result among several is not the statement form
+			}
+			if as, isAs := st.(*ast.AssignStmt); isAs && as.Tok != token.ASSIGN && as.Tok != token.DEFINE && len(as.Lhs) == 1 && pureSyntax(as.Lhs[0]) {
+				continue // `x -= h(y)`: neither
 			}
 			if _, isIf := st.(*ast.IfStmt); !isIf {
 				return nil
@@ -2047,6 +2079,24 @@ func (nz *normaliser) expandBody(h *helper, call *ast.CallExpr, lhs []ast.Expr, 
 			}
 		}
 	}
+	if h.unlockDefer {
+		// x.Lock(); defer x.Unlock(); …  →  x.Lock(); …; x.Unlock() in front of every return and at the end
+		for i, st := range body.List {
+			ds, ok := st.(*ast.DeferStmt)
+			if !ok {
+				continue
+			}
+			unlock := ds.Call
+			body.List = append(body.List[:i:i], body.List[i+1:]...)
+			body.List = rewriteReturns(body.List, func(r *ast.ReturnStmt, last bool) []ast.Stmt {
+				return []ast.Stmt{&ast.ExprStmt{X: cloneNode(unlock)}, r}
+			}, true)
+			if !terminates(body.List) {
+				body.List = append(body.List, &ast.ExprStmt{X: cloneNode(unlock)})
+			}
+			break
+		}
+	}
 	// labels of the helper must stay unique in the host function
 	relabel(body, fmt.Sprintf("Zq%d", nz.seq))
 	needLabel := false
@@ -2164,7 +2214,7 @@ func (nz *normaliser) expandBody(h *helper, call *ast.CallExpr, lhs []ast.Expr, 
 						}
 					}
 					// receiving variables that nothing can read any more are not assigned (return "" meaning "nothing")
-					if (k.scoped || endsInReturn(branch)) && len(out) > 0 && out[len(out)-1] == ast.Stmt(lastGenAssign) && !nz.capturedByLiteral(lhs) {
+					if (k.scoped || (endsInReturn(branch) && !nz.capturedByLiteral(lhs))) && len(out) > 0 && out[len(out)-1] == ast.Stmt(lastGenAssign) {
 						read := false
 						for _, l := range lhs {
 							nm := l.(*ast.Ident).Name
@@ -3516,6 +3566,9 @@ func (nz *normaliser) copyProp() {
 				if nz.copyPropFunc(pk, info, fd) {
 					nz.changed[f] = true
 				}
+				if nz.errInitCanon(fd) {
+					nz.changed[f] = true
+				}
 			}
 		}
 	}
@@ -3761,4 +3814,154 @@ func sraLateDefine(info *types.Info, body *ast.BlockStmt, name string, ft types.
 		}
 		return !done
 	})
+}
+
+// lockThenDeferUnlock: the body starts with `x.Lock()` (or RLock) followed by `defer x.Unlock()` (RUnlock) on the same x,
+// has no other defer statement, and every return hands over plain values (nothing that would have been evaluated
+// under the lock).
+func lockThenDeferUnlock(body *ast.BlockStmt) bool {
+	if len(body.List) < 2 {
+		return false
+	}
+	es, ok1 := body.List[0].(*ast.ExprStmt)
+	ds, ok2 := body.List[1].(*ast.DeferStmt)
+	if !ok1 || !ok2 {
+		return false
+	}
+	lc, ok := es.X.(*ast.CallExpr)
+	if !ok || len(lc.Args) != 0 || len(ds.Call.Args) != 0 {
+		return false
+	}
+	ls, ok1 := lc.Fun.(*ast.SelectorExpr)
+	us, ok2 := ds.Call.Fun.(*ast.SelectorExpr)
+	if !ok1 || !ok2 || types.ExprString(ls.X) != types.ExprString(us.X) || !pureSyntax(ls.X) {
+		return false
+	}
+	if !(ls.Sel.Name == "Lock" && us.Sel.Name == "Unlock") && !(ls.Sel.Name == "RLock" && us.Sel.Name == "RUnlock") {
+		return false
+	}
+	ok = true
+	n := 0
+	ast.Inspect(body, func(x ast.Node) bool {
+		switch y := x.(type) {
+		case *ast.FuncLit:
+			return false
+		case *ast.DeferStmt:
+			n++
+		case *ast.ReturnStmt:
+			for _, e := range y.Results {
+				if !pureSyntax(e) {
+					ok = false
+				}
+			}
+		}
+		return ok
+	})
+	return ok && n == 1
+}
+
+// errInitCanon undoes the detour an expanded helper takes when it tests its own error first:
+//
+//	if eZq := E; eZq != nil { x = eZq; break inlZq }   …   x = nil        (last statement of the expansion)
+//
+// becomes
+//
+//	x = E; if x != nil { break inlZq }   …
+//
+// provided nothing in between mentions x and E does not mention it: on the failing path x receives E's value either
+// way, on the other path it ends as nil either way (E's value there). That is the statement the caller had before the
+// steps were moved into a helper (`err = s.shuttingDown(…); if err != nil { return }`).
+func (nz *normaliser) errInitCanon(fd *ast.FuncDecl) bool {
+	changed := false
+	mentions := func(n ast.Node, name string) bool {
+		found := false
+		ast.Inspect(n, func(x ast.Node) bool {
+			if id, ok := x.(*ast.Ident); ok && id.Name == name {
+				found = true
+			}
+			return !found
+		})
+		return found
+	}
+	ast.Inspect(fd.Body, func(n ast.Node) bool {
+		ls, ok := n.(*ast.LabeledStmt)
+		if !ok || !strings.Contains(ls.Label.Name, "Zq") {
+			return true
+		}
+		sw, ok := ls.Stmt.(*ast.SwitchStmt)
+		if !ok || sw.Tag != nil || sw.Init != nil || len(sw.Body.List) != 1 {
+			return true
+		}
+		cc := sw.Body.List[0].(*ast.CaseClause)
+		L := cc.Body
+		if len(L) < 2 {
+			return true
+		}
+		fin, ok := L[len(L)-1].(*ast.AssignStmt)
+		if !ok || fin.Tok != token.ASSIGN || len(fin.Lhs) != 1 || len(fin.Rhs) != 1 || !isNilIdent(fin.Rhs[0]) {
+			return true
+		}
+		x, ok := fin.Lhs[0].(*ast.Ident)
+		if !ok {
+			return true
+		}
+		for i, st := range L[:len(L)-1] {
+			is, ok := st.(*ast.IfStmt)
+			if !ok || is.Else != nil || is.Init == nil || len(is.Body.List) != 2 {
+				continue
+			}
+			def, ok := is.Init.(*ast.AssignStmt)
+			if !ok || def.Tok != token.DEFINE || len(def.Lhs) != 1 || len(def.Rhs) != 1 {
+				continue
+			}
+			v, ok := def.Lhs[0].(*ast.Ident)
+			if !ok || !strings.Contains(v.Name, "Zq") {
+				continue
+			}
+			cx, cy, op, isCmp := binaryCmp(is.Cond)
+			if !isCmp || op != token.NEQ || !isNilIdent(cy) {
+				continue
+			}
+			if cid, ok := ast.Unparen(cx).(*ast.Ident); !ok || cid.Name != v.Name {
+				continue
+			}
+			as, ok1 := is.Body.List[0].(*ast.AssignStmt)
+			br, ok2 := is.Body.List[1].(*ast.BranchStmt)
+			if !ok1 || !ok2 || br.Tok != token.BREAK || br.Label == nil || br.Label.Name != ls.Label.Name {
+				continue
+			}
+			if as.Tok != token.ASSIGN || len(as.Lhs) != 1 || len(as.Rhs) != 1 {
+				continue
+			}
+			l, okL := as.Lhs[0].(*ast.Ident)
+			r, okR := as.Rhs[0].(*ast.Ident)
+			if !okL || !okR || l.Name != x.Name || r.Name != v.Name || mentions(def.Rhs[0], x.Name) {
+				continue
+			}
+			clean := true
+			for _, mid := range L[i+1 : len(L)-1] {
+				if mentions(mid, x.Name) || mentions(mid, v.Name) {
+					clean = false
+				}
+			}
+			for _, before := range L[:i] {
+				_ = before
+			}
+			if !clean {
+				continue
+			}
+			first := &ast.AssignStmt{Lhs: []ast.Expr{ast.NewIdent(x.Name)}, Tok: token.ASSIGN, Rhs: def.Rhs}
+			test := &ast.IfStmt{Cond: &ast.BinaryExpr{X: ast.NewIdent(x.Name), Op: token.NEQ, Y: ast.NewIdent("nil")},
+				Body: &ast.BlockStmt{List: []ast.Stmt{br}}}
+			out := append([]ast.Stmt(nil), L[:i]...)
+			out = append(out, first, test)
+			out = append(out, L[i+1:len(L)-1]...)
+			cc.Body = out
+			changed = true
+			nz.notes = append(nz.notes, fmt.Sprintf("error tested through a temporary in %s assigned directly", fd.Name.Name))
+			break
+		}
+		return true
+	})
+	return changed
 }
